@@ -580,6 +580,44 @@ theorem chkLateDispatch_none {m : Mon} {s : St} (mr : MonReqs m s) (i : Inv4 s) 
     rcases R.late ha with h1 | h1 <;> simp [hrun, ReqPc.inPR] at h1
   · rfl
 
+/-- In an idle state no handler is running: `incoming` counts every request between A1 and P2
+(`RInv.cnt`), a running handler among them. -/
+theorem runningHandler_none_of_idle {s : St} (i : Inv4 s) (hidle : s.idle = true) :
+    (obsOf s).runningHandler = none := by
+  unfold Obs.runningHandler
+  rw [List.findSome?_eq_none_iff]
+  intro t ht
+  cases t with
+  | h r =>
+    exfalso
+    obtain ⟨k, hk, hrun⟩ := (mem_parked_h s r).mp ht
+    have hcnt : s.incoming = countInflight s.cores := i.base.base.base.reqs.cnt
+    have hpos := countInflight_pos s.cores r k hk (by simp [hrun, ReqPc.inflight])
+    have h0 : s.incoming = 0 := by
+      simp only [St.idle, Bool.and_eq_true, beq_iff_eq] at hidle
+      exact hidle.1.2
+    omega
+  | _ => rfl
+
+theorem chkClosedRunning_none {p : Obs} {s s' : St} {l : Label} (hp : PrevOK p s) (i' : Inv4 s')
+    (h : step s l = some s') : chkClosedRunning p (obsOf s') = none := by
+  unfold chkClosedRunning
+  by_cases hc : s'.transportCloses = s.transportCloses
+  · have h1 : (obsOf s').tc = s.transportCloses := hc
+    rw [h1, prev_tc hp]
+    by_cases h0 : s.transportCloses = 0 <;> simp [h0]
+  · rw [runningHandler_none_of_idle i' (tc_step h hc)]
+    simp
+
+theorem chkDoneRunning_none {s : St} (i : Inv4 s) : chkDoneRunning (obsOf s) = none := by
+  unfold chkDoneRunning
+  by_cases hd : s.done = true
+  · have hidle : s.idle = true := (i.base.base.base.flags.dn hd).1
+    rw [runningHandler_none_of_idle i hidle]
+    simp
+  · have : (obsOf s).done = false := by simpa [obsOf] using hd
+    simp [this]
+
 /-! ### C04: Cancel only for ids the peer named -/
 
 theorem bookCancel_fields (m : Mon) (e : Ev) : ∃ a u, m.bookCancel e = { m with cancelAsked := a, unasked := u } := by
@@ -627,7 +665,8 @@ theorem monrel_step {m : Mon} {s s' : St} {l : Label} (R : MonRel m s) (i : Inv4
     unfold chkAll
     rw [chkFinal_none hp h, chkOwn_none mc1 i', chkPanic_none, chkBlocked_none mc1 i', chkLate_none mc1 i',
       chkRegAfterRx_none mx1, chkStillRegistered_none i', chkMarshal_none mb1 i', chkAnswer_none mr1 i', chkOrder_none hp Rr i h0, chkCancelAsked_none C3, chkCancelX_none mr1 i', chkEv_none hp i h mr1 i',
-      chkTc_none i', chkOd_none i', chkClosedIdle_none hp h, chkDoneIdle_none i', chkLateDispatch_none mr1 i']
+      chkTc_none i', chkOd_none i', chkClosedIdle_none hp h, chkDoneIdle_none i', chkLateDispatch_none mr1 i',
+      chkClosedRunning_none hp i' h, chkDoneRunning_none i']
     rfl
   · exact Or.inl rfl
   · exact moncalls_mark mc1 _
